@@ -82,10 +82,15 @@ def stmt_text(st, rng, opts, laid=None):
     head = ""
     if st.label:
         head += st.label + " "
+    name_sep = None
     if st.cname:
-        head += recase(st.cname, opts.case, rng) + (" : " if rng.random() < 0.3 else ": ")
+        name_sep = rng.choice([": ", ": ", ": ", " : ", " : ", ":"])
+        head += recase(st.cname, opts.case, rng) + name_sep
     text = head
     bounds = []
+    if st.cname:
+        # a cut directly behind the construct name: `name: &` / `name:&`
+        bounds.append((len(text), name_sep == ":"))
     lit_ranges = []
     acc = []
     for k, t in enumerate(toks):
